@@ -91,6 +91,93 @@ def rule_flattening_keeps_operator(ctx):
         raise AnalysisError("fewer than 2 operand-flattening sites in the pattern visitor (%d): anchors lost" % n)
 
 
+def rule_grouping_always_printed(ctx):
+    """ParentheticalExpression is the model's grouping node: printing it ALWAYS writes the parentheses.  Whether the inner text
+    happens to start with '(' and end with ')' says nothing about grouping -- `(a:x = 1) OR (a:y = 2)` does -- so a printer that
+    drops 'redundant' parentheses regroups `((a) OR (b)) AND c` into `(a) OR (b) AND c`."""
+    run = ctx.run
+    prog = ctx.prog
+    R = "C10.printer-complete"
+    m = prog.cls("stix2.patterns::ParentheticalExpression").methods.get("__str__")
+    if m is None:
+        raise AnalysisError("anchor missing: ParentheticalExpression.__str__")
+    rets = returns_of(m)
+    conds = [x for x in body_walk(m.node) if isinstance(x, (ast.If, ast.IfExp))]
+    ok = len(rets) == 1 and not conds
+    if ok:
+        v = rets[0].value
+        txt = [c.value for c in ast.walk(v) if isinstance(c, ast.Constant) and isinstance(c.value, str)]
+        ok = any(t.startswith("(") for t in txt) and any(t.endswith(")") for t in txt)
+    run.check(ok, R, key(m.module.relpath, m.qualname, "grouping-always-printed"),
+              "the grouping node does not unconditionally print its parentheses: groups whose text begins and ends with a "
+              "parenthesis of their own operands lose theirs and the pattern is regrouped", file=m.module.relpath,
+              line=m.node.lineno, function=m.qualname, expected='return "(%s)" % self.expression', found=[short(r, 60) for r in rets])
+
+
+def rule_integers_exact(ctx):
+    """Integer literals are arbitrary-precision in the grammar and in the model: IntegerConstant converts with int() only.
+    A detour through float() (53 bits) alters every integer beyond 2**53 that is not a double: `[file:size =
+    9007199254740993]` prints ...992."""
+    run = ctx.run
+    prog = ctx.prog
+    R = "C10.token-domain"
+    cls = prog.cls("stix2.patterns::IntegerConstant")
+    bad = [x for m in cls.methods.values() for x in body_walk(m.node) if isinstance(x, ast.Call) and isinstance(x.func, ast.Name)
+           and x.func.id in ("float", "round") or (isinstance(x, ast.BinOp) and isinstance(x.op, ast.Div))]
+    conv = [x for m in cls.methods.values() for x in body_walk(m.node) if isinstance(x, ast.Call) and isinstance(x.func, ast.Name) and x.func.id == "int"]
+    run.check(bool(conv) and not bad, R, key(cls.module.relpath, cls.qualname, "integers-converted-exactly"),
+              "an integer literal passes through floating point on its way into the model: integers beyond 2**53 change value",
+              file=cls.module.relpath, line=(bad[0].lineno if bad else cls.node.lineno), function=cls.qualname,
+              expected="int(value) only", found=[short(x, 40) for x in bad])
+
+
+def rule_index_steps_cover_the_grammar(ctx):
+    """An index step of an object path is `[` IntPosLiteral | IntNegLiteral | `*` `]` in the grammar: signed.  Where a path STRING
+    is cut into components (create_ObjectPathComponent) the index is whatever stands between the brackets; if a regular
+    expression does the cutting, its index part admits '-1', '+1', '0' and '*' -- decided on the expression's language
+    (automata), not by running it."""
+    run = ctx.run
+    prog = ctx.prog
+    R = "C10.path-step-kinds"
+    from ..regexnfa import pattern_included
+    from ..tableeval import Evaluator, Regex
+    fi = prog.cls("stix2.patterns::_ObjectPathComponent").methods.get("create_ObjectPathComponent")
+    if fi is None:
+        raise AnalysisError("anchor missing: create_ObjectPathComponent")
+    ev = Evaluator(prog, allow_dyn=True)
+    used = []
+    for c in body_walk(fi.node):
+        if isinstance(c, ast.Call) and isinstance(c.func, ast.Attribute) and c.func.attr in ("match", "fullmatch", "search"):
+            recv = c.func.value
+            val = None
+            try:
+                if isinstance(recv, ast.Name):
+                    b_ = fi.module.scope.lookup_local(recv.id)
+                    val = ev.eval(b_.value, fi.module.scope) if b_ is not None else None
+                elif norm(recv) == "re" and c.args:
+                    val = Regex(ev.eval(c.args[0], fi.module.scope), 0)
+            except Exception:
+                val = None
+            if isinstance(val, Regex):
+                used.append((c, val, c.func.attr))
+    if not used:
+        run.ok(R, key(fi.module.relpath, fi.qualname, "index-steps-cover-the-grammar"), "the index is cut by find / split: any text between the brackets")
+        return
+    for c, rx, mode in used:
+        missing = []
+        for w in ("a[-1]", "a[+1]", "a[0]", "a[12]", "a[*]"):
+            import re as _re
+            # {w} subseteq L(rx): inclusion of a one-word language
+            res_ = pattern_included(_re.escape(w), rx.pattern, 0, rx.flags, "fullmatch", mode)
+            okw = res_ is None          # included() answers None, or a shortest word of the difference
+            if not okw:
+                missing.append(w)
+        run.check(not missing, R, key(fi.module.relpath, fi.qualname, "index-steps-cover-the-grammar"),
+                  "the expression that recognises an index step in a path string does not admit %s: such a step is taken for a "
+                  "property name (and printed quoted)" % ", ".join(missing), file=fi.module.relpath, line=c.lineno, function=fi.qualname,
+                  expected="signed integers and * between the brackets", found=rx.pattern)
+
+
 def rule_observation_brackets(ctx):
     """An observation prints its comparison expression in square brackets -- unless the operand is itself an observation
     expression (simple or compound: they bring their own brackets).  The class test that decides covers both kinds, or a
@@ -184,6 +271,9 @@ def run(ctx):
     ctx.do(rule_nodes_built_by_constructors)
     ctx.do(rule_printer_complete)
     ctx.do(rule_observation_brackets)
+    ctx.do(rule_grouping_always_printed)
+    ctx.do(rule_integers_exact)
+    ctx.do(rule_index_steps_cover_the_grammar)
     ctx.do(rule_definite_init)
     ctx.do(rule_escape_order)
     ctx.do(rule_step_quoting)
